@@ -6,7 +6,7 @@ import ast
 from ..core import terms as T
 from ..core import asthelp as H
 from ..core.interp import Interp, assume
-from ..core.progdb import AnalysisError, walk_no_nested, lit
+from ..core.progdb import AnalysisError, walk_no_nested, lit, call_name
 from ..core.values import Frame, Obj, PyTuple, to_term
 from ..specs.merge import check_term
 from ..specs.endcoherence import check_end_coherence
@@ -39,8 +39,42 @@ def run(db, chk) -> None:
     check_move_is_complete(db, chk, "C13.R8-move-is-complete")
     _roots(db, chk, cs)
     check_stack_labels(db, chk, "C13.R4-backward-attachment")
+    _stack_index(db, chk, cg)
     from .c03 import host_rows_complete
     host_rows_complete(db, chk, "C13.R9-tree-complete")          # the attributes are those of the call tree: every host event of the thread must be a node of it
+
+
+def _stack_index(db, chk, cg, rule="C13.R4-backward-attachment"):
+    """the `stack_index` a thread's mapping row carries is the position of that thread's stack in self.call_stacks - the ONE list shared by all ranks that
+    _connect_stacks / get_call_stacks subscript with it"""
+    init = cg.func("CallGraph.__init__")
+    cols = None
+    for c in H.calls(init):
+        if call_name(c).endswith("DataFrame"):
+            for k in c.keywords:
+                if k.arg == "columns" and isinstance(k.value, (ast.List, ast.Tuple)) and all(isinstance(e, ast.Constant) for e in k.value.elts) and "stack_index" in [e.value for e in k.value.elts]:
+                    cols = [e.value for e in k.value.elts]
+    f0 = cg.func("CallGraph._build_call_stacks")
+    f = H.inline_helpers(cg, f0)
+    where = cg.loc(f0)
+    if cols is None:
+        chk.ob(rule, "stack_index of a mapping row = position of the thread's stack in self.call_stacks", None, where, found="mapping columns not found")
+        return
+    pos = cols.index("stack_index")
+    rows = [t for t in ast.walk(f) if isinstance(t, ast.Tuple) and isinstance(t.ctx, ast.Load) and len(t.elts) == len(cols) and not any(isinstance(e, ast.Starred) for e in t.elts)]
+    appends = [c for c in H.calls(f) if isinstance(c.func, ast.Attribute) and c.func.attr == "append" and H.is_self_attr(c.func.value, "call_stacks")]
+    if len(rows) != 1 or len(appends) != 1:
+        chk.ob(rule, "stack_index of a mapping row = position of the thread's stack in self.call_stacks", None, where, found={"row displays": len(rows), "appends to self.call_stacks": len(appends)})
+        return
+    e = rows[0].elts[pos]
+    after = H.before(appends[0], rows[0])
+    txt = ast.unparse(e).replace(" ", "")
+    good = ("len(self.call_stacks)-1" if after else "len(self.call_stacks)")
+    m_len = H.match("len($$x) - $k", e) or H.match("len($$x)", e)
+    other_counter = m_len is not None and "self.call_stacks" not in txt
+    chk.ob(rule, "stack_index of a mapping row = position of the thread's stack in self.call_stacks (the list shared by all ranks)", True if txt == good else (False if (other_counter or txt in ("len(self.call_stacks)-1", "len(self.call_stacks)")) else None), where,
+           found=ast.unparse(e), accepted=good + (" (row built after the append)" if after else " (row built before the append)"),
+           why="a count that restarts with every rank (rows collected so far, threads of this rank) addresses ANOTHER rank's stacks from the second rank on: its autograd thread is never attached and the kernels below it are missing from the step's totals")
 
 
 def _node(name, **attrs):
